@@ -227,6 +227,9 @@ func c12Robust(c *fw.Ctx, s1, s2 seg, a, b, cc, d geom.Coord, tr c12truth, locat
 
 // c12CheckPair checks all 8 symmetric presentations.
 func c12CheckPair(c *fw.Ctx, s1, s2 seg, locate, nonRobust bool) {
+	if c.R.Chance(1, 64) {
+		xyRefusedCalls(c)
+	}
 	c.SetInput(c12Desc(s1, s2))
 	tr := c12Exact(s1, s2)
 	c.Count("class_" + tr.class)
